@@ -103,7 +103,9 @@ pub struct MwObs {
 #[derive(Clone, Debug)]
 pub enum RawFinal {
     Ok(Option<ResponseCookie<'static>>),
+    #[allow(dead_code)]
     Err(String),
+    #[allow(dead_code)]
     Panic(String),
 }
 
@@ -407,6 +409,7 @@ pub async fn replay(ctx: &Ctx, cfg: &Cfg, hist: &[Event], opts: &ReplayOpts<'_>)
     let mut out = Outcome::default();
     let mut snaps: Vec<String> = Vec::new();
     let mut last_dv: Option<DebugView> = None;
+    let mut presented: Option<JarCookie> = None;
     let mut last_client_view: ([Option<u8>; 2], bool, bool) = Default::default();
 
     macro_rules! viol {
@@ -465,6 +468,7 @@ pub async fn replay(ctx: &Ctx, cfg: &Cfg, hist: &[Event], opts: &ReplayOpts<'_>)
                     },
                 };
                 model.begin(cookie.as_ref().map(|c| (c.mid, c.client.clone())));
+                presented = cookie.clone();
                 let s = Session::new(&store, &config, incoming);
                 lock(&log).ops.clear();
                 req_idx += 1;
@@ -575,6 +579,7 @@ pub async fn replay(ctx: &Ctx, cfg: &Cfg, hist: &[Event], opts: &ReplayOpts<'_>)
                     }
                     if op == Op::Sync {
                         r.synced = true;
+                        r.cycled_since_sync = false;
                         r.unmarked.clear();
                         let rs = snapshot_real(&mem, &log, &bind).await?;
                         let diffs = diff_stores(&model, &bind, &rs);
@@ -838,7 +843,12 @@ pub async fn replay(ctx: &Ctx, cfg: &Cfg, hist: &[Event], opts: &ReplayOpts<'_>)
                         out.terminal = true;
                     }
                     if check && !out.terminal {
-                        for (which, c) in [("current-cookie", jar.current.clone()), ("stale-cookie", jar.stale.clone())] {
+                        // the cookie this request came with, if the jar no longer holds it
+                        let came_with = presented.clone().filter(|p| {
+                            let same = |c: &Option<JarCookie>| c.as_ref().map(|c| c.mid == p.mid && c.client == p.client).unwrap_or(false);
+                            !same(&jar.current) && !same(&jar.stale)
+                        });
+                        for (which, c) in [("current-cookie", jar.current.clone()), ("stale-cookie", jar.stale.clone()), ("presented-cookie", came_with)] {
                             let Some(c) = c else { continue };
                             let expected = model.expect_probe(cfg, c.mid, &c.client);
                             let got = match wire_of(&c, wire_proc) {
@@ -979,7 +989,7 @@ pub async fn replay(ctx: &Ctx, cfg: &Cfg, hist: &[Event], opts: &ReplayOpts<'_>)
     };
     if !out.terminal {
         let mut order: Vec<Mid> = Vec::new();
-        let mut push = |m: Option<Mid>, order: &mut Vec<Mid>| {
+        let push = |m: Option<Mid>, order: &mut Vec<Mid>| {
             if let Some(m) = m
                 && !order.contains(&m)
             {
@@ -1021,7 +1031,7 @@ pub async fn replay(ctx: &Ctx, cfg: &Cfg, hist: &[Event], opts: &ReplayOpts<'_>)
             let req_part = match &model.req {
                 None => "closed".to_string(),
                 Some(r) => format!(
-                    "open came={} idnew={} at={} idk={} real[{}] view[{:?} {} {}] model[client{} dirty={} server={} inv={} synced={} unmarked={:?}]",
+                    "open came={} idnew={} at={} idk={} real[{}] view[{:?} {} {}] model[client{} dirty={} server={} inv={} synced={} css={} unmarked={:?}]",
                     r.came_with.map(&name).unwrap_or("-".into()),
                     name(r.id_new),
                     r.record_at.map(&name).unwrap_or("-".into()),
@@ -1038,6 +1048,7 @@ pub async fn replay(ctx: &Ctx, cfg: &Cfg, hist: &[Event], opts: &ReplayOpts<'_>)
                     },
                     r.invalidated,
                     r.synced,
+                    r.cycled_since_sync,
                     r.unmarked
                 ),
             };
